@@ -1,5 +1,5 @@
 SPECIFICATION Spec
 CONSTANT Tier = "quick"
-INVARIANTS VLQLaws VLQDecLaws VLQRangeLaws AmountLaws CAmountLaws AmtRangeLaws ScriptLaws CScriptLaws
+INVARIANTS VLQLaws VLQDecLaws VLQRangeLaws AmountLaws CAmountLaws AmtRangeLaws ScriptLaws CScriptLaws CSizeLaws
            TxOutLaws UtxoLaws KeyPairLaws StxoLaws JournalLaws BestLaws RowLaws LegacyLaws ChainLaws DocLaws
            EmitCase
